@@ -36,7 +36,7 @@ func exprString(e ast.Expr) string { return types.ExprString(e) }
 
 // insignificant call prefixes (logging, formatting, pure conversions)
 func significantCall(name string) bool {
-	for _, p := range []string{"log.", "m.log.", "zap.", "fmt.", "errors.", "append", "len", "make", "new", "time.", "panic", "string", "[]byte"} {
+	for _, p := range []string{"log.", "m.log.", "zap.", "fmt.", "errors.", "append", "len", "make", "new", "time.", "panic", "string", "[]byte", "uint64", "int", "int64", "uint32", "byte"} {
 		if name == strings.TrimSuffix(p, ".") || strings.HasPrefix(name, p) {
 			return false
 		}
@@ -124,6 +124,13 @@ func (w *skelWalker) uses(nodes ...ast.Node) (uses, ops []string) {
 		visit = func(x ast.Node) bool {
 			switch e := x.(type) {
 			case *ast.CallExpr:
+				if conv := exprString(e.Fun); conv == "uint64" || conv == "int" || conv == "int64" || conv == "uint32" || conv == "byte" || conv == "string" || conv == "[]byte" {
+					// a type conversion: only its operand matters
+					for _, a := range e.Args {
+						ast.Inspect(a, visit)
+					}
+					return false
+				}
 				uses = append(uses, w.callee(e.Fun)+"()")
 				// the receiver chain of the callee and the arguments
 				if sel, ok := e.Fun.(*ast.SelectorExpr); ok {
@@ -169,6 +176,22 @@ func (w *skelWalker) uses(nodes ...ast.Node) (uses, ops []string) {
 		ast.Inspect(n, visit)
 	}
 	return
+}
+
+// fieldPath prints a selector chain without its root identifier (`b.ParentID` -> ".ParentID",
+// `id` -> "_").
+func fieldPath(e ast.Expr) string {
+	switch x := e.(type) {
+	case *ast.Ident:
+		return "_"
+	case *ast.SelectorExpr:
+		p := fieldPath(x.X)
+		if p == "_" {
+			p = ""
+		}
+		return p + "." + x.Sel.Name
+	}
+	return "?"
 }
 
 func (w *skelWalker) emit(s string) { w.toks = append(w.toks, s) }
@@ -229,6 +252,13 @@ func (w *skelWalker) calls(n ast.Node) {
 				if w.self == "m" && strings.HasPrefix(name, "m.") && !strings.HasPrefix(name, "m.store.") && !strings.HasPrefix(name, "m.mu.") {
 					for _, a := range e.Args {
 						args = append(args, exprString(a))
+					}
+				}
+				if strings.HasSuffix(name, ".AncestorTimestamp") {
+					// which block's ancestor is asked for: the field path of the argument without
+					// the local it hangs on (`b.ParentID` -> ".ParentID")
+					for _, a := range e.Args {
+						args = append(args, fieldPath(a))
 					}
 				}
 				w.emit(fmt.Sprintf(".call %q %s", name, leanStrList(args)))
@@ -505,7 +535,9 @@ func init() {
 
 var dbSkelFuncs = []string{"MemDB.Flush", "MemDB.Cancel", "MemDB.get", "MemDB.put", "MemDB.delete", "MemDB.Bucket", "MemDB.CreateBucket",
 	"cacheBucket.Get", "cacheBucket.Put", "cacheBucket.Delete", "cacheBucket.Iter",
-	"CacheDB.Bucket", "CacheDB.CreateBucket", "CacheDB.Flush", "CacheDB.Cancel"}
+	"CacheDB.Bucket", "CacheDB.CreateBucket", "CacheDB.Flush", "CacheDB.Cancel",
+	"DBStore.AncestorTimestamp", "DBStore.getAncestorInfo", "DBStore.applyState", "DBStore.revertState",
+	"DBStore.ApplyBlock", "DBStore.RevertBlock", "DBStore.PruneBlock", "DBStore.AddBlock", "DBStore.AddState", "DBStore.Flush", "DBStore.shouldFlush"}
 
 func recvType(fd *ast.FuncDecl) string {
 	if fd.Recv == nil || len(fd.Recv.List) != 1 {
